@@ -197,7 +197,81 @@ def run_kernel(inst):
     return out
 
 
+def run_mapswap(inst):
+    """K relational on the in-memory map: the same query on a map and on the axis-swapped / translated map (query transformed
+    accordingly) returns the same elements with the same distances and relative positions."""
+    from leuvenmapmatching.map.inmem import InMemMap
+    _, what, tr = inst[:3]
+    budget = inst[3] if len(inst) > 3 else None
+    shims.install()
+    graph = {1: [2], 2: [3], 3: []}
+
+    def scenario():
+        eng = E.get_engine()
+        co = {n: (eng.fresh(f"y{n}"), eng.fresh(f"x{n}")) for n in graph}
+        loc = (eng.fresh("qy"), eng.fresh("qx"))
+        r2 = z3.Real("r_sq")
+        eng.assume(r2 > 0)
+        r = eng.sqrt_of(r2, name="r")
+        if tr == 'swap':
+            T = lambda p: (p[1], p[0])
+        else:
+            oy, ox = eng.fresh("off_y"), eng.fresh("off_x")
+            T = lambda p: (p[0] + oy, p[1] + ox)
+        out = []
+        for f in (lambda p: p, T):
+            mp = InMemMap("m", graph={n: (f(co[n]), list(graph[n])) for n in graph}, use_latlon=False)
+            res = mp.nodes_closeto(f(loc), max_dist=r) if what == 'nodes' else mp.edges_closeto(f(loc), max_dist=r)
+            out.append(res)
+        return dict(out=out, co=co, loc=loc, r2=r2)
+
+    def sqv(d):
+        return d.sq if isinstance(d, E.Sym) and d.sq is not None else E.lift(d) * E.lift(d)
+
+    def claims(eng, v):
+        a, b = v['out']
+        ka = [(row[1],) if what == 'nodes' else (row[1], row[3]) for row in a]
+        kb = [(row[1],) if what == 'nodes' else (row[1], row[3]) for row in b]
+        cl = [('same_elements_returned', z3.BoolVal(sorted(ka) == sorted(kb)))]
+        if sorted(ka) == sorted(kb):
+            da = {k: sqv(row[0]) for k, row in zip(ka, a)}
+            db = {k: sqv(row[0]) for k, row in zip(kb, b)}
+            cl.append(('same_distances', z3.And(*[da[k] == db[k] for k in da]) if da else z3.BoolVal(True)))
+            if what == 'edges':
+                ta = {k: E.lift(row[6]) for k, row in zip(ka, a)}
+                tb = {k: E.lift(row[6]) for k, row in zip(kb, b)}
+                cl.append(('same_relative_positions', z3.And(*[ta[k] == tb[k] for k in ta]) if ta else z3.BoolVal(True)))
+        return cl
+
+    def confirm(eng, model, v, cname):
+        cv = lambda x: E.model_value(model, x.t) if isinstance(x, E.Sym) else float(x)
+        co = {n: tuple(cv(c) for c in p) for n, p in v['co'].items()}
+        loc = tuple(cv(c) for c in v['loc'])
+        r = max(E.model_value(model, v['r2']), 0.0) ** 0.5
+        if tr == 'swap':
+            T = lambda p: (p[1], p[0])
+        else:
+            oy, ox = cv(z3.Real("off_y")) if False else E.model_value(model, z3.Real("off_y")), E.model_value(model, z3.Real("off_x"))
+            T = lambda p: (p[0] + oy, p[1] + ox)
+        res = []
+        with shims.concrete():
+            for f in (lambda p: p, T):
+                mp = InMemMap("m", graph={n: (f(co[n]), list(graph[n])) for n in graph}, use_latlon=False)
+                rr = mp.nodes_closeto(f(loc), max_dist=r) if what == 'nodes' else mp.edges_closeto(f(loc), max_dist=r)
+                res.append(sorted(((row[1],) if what == 'nodes' else (row[1], row[3]), round(row[0], 9)) for row in rr))
+        if [k for k, _ in res[0]] != [k for k, _ in res[1]]:
+            return dict(desc=f"InMemMap.{what}_closeto(loc={loc}, max_dist={r}) on {co}: {res[0]}, but after the {tr} of map and query: {res[1]}",
+                        kind='mapswap', coords={str(k): list(c) for k, c in co.items()}, loc=list(loc), radius=r, transform=tr)
+        return None
+    out = runner.explore(f"inmem {what}_closeto under {tr}", runner.nra_engine(8000), scenario, claims, confirm=confirm, budget_s=budget,
+                         witness=lambda eng, v: ['mapswap_path'])
+    shims.uninstall()
+    return out
+
+
 def run_instance(inst):
+    if inst[0] == 'mapswap':
+        return run_mapswap(inst)
     if inst[0] == 'kernel':
         return run_kernel(inst)
     return gabs.run(inst, claims_fn, witness_fn)
@@ -312,7 +386,7 @@ def main(tier):
     rep.functions = src_hash(sg.Segment, ms.SimpleMatcher.logprob_trans, md.DistanceMatcher.logprob_trans, de.project,
                              de.distance_point_to_segment, de.distance_segment_to_segment, mb.BaseMatcher._match_states)
     budget = 60 if tier == 'quick' else 600
-    kres = run_instances(run_instance, [i + (budget,) for i in k_instances(tier)])
+    kres = run_instances(run_instance, [i + (budget,) for i in k_instances(tier)] + [('mapswap', w, t, budget) for w in ('nodes', 'edges') for t in ('swap', 'translate')])
     res = gabs.run_all(rep, run_instance, r_instances(tier), budget, 16 * (80 if tier == 'quick' else 900))
     ch = run_crosshair(tier)
     rep.extra['crosshair_labels'] = ch
@@ -365,7 +439,7 @@ def replay_file(path):
     import json
     import_repo()
     d = json.load(open(path))
-    if d.get('kind') in ('crosshair', 'kernel'):
+    if d.get('kind') in ('crosshair', 'kernel', 'mapswap'):
         print(d['observed'])
         return 1
     return gabs.replay(path, claims_fn)
